@@ -50,7 +50,7 @@ def scanBody (l : List UInt8) : Except Res (List UInt8 × Nat × Bool) :=
           else .error .syntaxErr
         else .error .syntaxErr
     else if c == 34 then .ok ([], 1, false)
-    else if c == 0 then .error .syntaxErr
+    else if c.toNat < 0x20 then .error .syntaxErr
     else
       match scanBody rest with
       | .ok (body, n, esc) => .ok (c :: body, n + 1, esc)
